@@ -109,6 +109,18 @@ def check(R):
 
     # ---- d --------------------------------------------------------------------
     with R.clause('d'):
+        # the ordered (linear) decoder of derived structures: TLVSequence::scan_map steps over an element only when the closure did NOT
+        # settle on it - `scan_ctx` answers Some(empty) for "the wanted tag is absent, stay on this element", and stepping past that element
+        # loses a present field behind an absent optional one
+        sm = R.body('tlv::read::TLVSequence::scan_map')
+        fcalls = [t for t in sm.calls() if any(n.endswith(('FnMut::call_mut', 'FnOnce::call_once', 'Fn::call')) for n in t.callee_names())]
+        R.floor('closure invocation in TLVSequence::scan_map', len(fcalls), 1)
+        adv = sorted({i for i, j, st in sm.stmts() if st[0][0] == 1 and len(st[0]) > 1 and not sm.is_cleanup(i)} | {t.bb for t in sm.calls('tlv::read::TLVSequence::container_next')})
+        R.floor('advance (container_next / write of *self) in TLVSequence::scan_map', len(adv), 1)
+        for t in fcalls:
+            tr0, tr1 = prims.track_result(F, sm, t), prims.track_result(F, sm, t, inner=1)
+            for (frm, to) in sorted(tr0.success):
+                R.cut_from('P2', sm, to, 'step over the current element', adv, 'the closure did not settle on it (its answer was None)', tr1.failure)
         # writer side of the round trip: the minimal-width selection narrows a value only inside the narrow type's range, and the
         # full-width arm tags the bytes with the value type of its own width
         RANGE = {'i8': (-128, 127), 'i16': (-32768, 32767), 'i32': (-2 ** 31, 2 ** 31 - 1), 'u8': (0, 255), 'u16': (0, 65535), 'u32': (0, 2 ** 32 - 1)}
